@@ -108,7 +108,7 @@ func modelAsync(p *gm.Program, h []Step, batch bool) (out []Step, unsup string) 
 }
 
 // runAsyncHistory executes the history on the engine, comparing the log after every drain.
-func (w *worker) runAsyncHistory(c Case, src string, h []Step, batch bool) (n int, vc *VCase, sig string) {
+func (w *worker) runAsyncHistory(c Case, src string, h []Step, batch bool) (n int, vc *VCase, class string) {
 	e := w.engine()
 	mk := func(at int, lg []string, ft *fault) *VCase {
 		v := &VCase{Part: "async", Name: c.Name, Prog: c.Prog, Src: src, History: h, At: at, GotLog: lg, Batch: batch}
@@ -119,7 +119,7 @@ func (w *worker) runAsyncHistory(c Case, src string, h []Step, batch bool) (n in
 	}
 	if err := e.define(src, true); err != nil {
 		w.discard()
-		return 0, mk(-1, []string{err.Error()}, nil), "async|define|" + errClass(err)
+		return 0, mk(-1, []string{err.Error()}, nil), "define failed: " + errClass(err)
 	}
 	call := func(f func() error) (lg []string, ft *fault) {
 		ft = e.guard(func() {
@@ -138,11 +138,11 @@ func (w *worker) runAsyncHistory(c Case, src string, h []Step, batch bool) (n in
 	check := func(at int, lg []string, ft *fault) (*VCase, string) {
 		if ft != nil {
 			w.discard()
-			return mk(at, lg, ft), asyncSig(c, h, at, batch, "fault:"+ft.kind+":"+ft.detail)
+			return mk(at, lg, ft), "fault:" + ft.kind + ":" + ft.detail
 		}
 		if !eqStrings(lg, h[at].Log) {
 			w.discard()
-			return mk(at, lg, nil), asyncSig(c, h, at, batch, diffClass("", "", h[at].Log, lg))
+			return mk(at, lg, nil), diffClass("", "", h[at].Log, lg)
 		}
 		return nil, ""
 	}
@@ -178,20 +178,6 @@ func (w *worker) runAsyncHistory(c Case, src string, h []Step, batch bool) (n in
 	return n, nil, ""
 }
 
-func asyncSig(c Case, h []Step, at int, batch bool, class string) string {
-	what := "start"
-	if at > 0 {
-		what = "resolve"
-		if h[at].Op == 1 {
-			what = "reject"
-		}
-		if batch {
-			what = "batch"
-		}
-	}
-	return fmt.Sprintf("async|%s|%s|%s", what, class, bodyClass(c.Name))
-}
-
 // asyncCase runs all settlement orders of one body, in both drain modes and all function kinds.
 func (w *worker) asyncCase(c Case, idx int64) {
 	r := w.r
@@ -222,13 +208,13 @@ func (w *worker) asyncCase(c Case, idx int64) {
 					r.Add("model_unsupported_async", 1)
 					break
 				}
-				n, vc, sig := w.runAsyncHistory(cc, src, exp, batch)
+				n, vc, class := w.runAsyncHistory(cc, src, exp, batch)
 				r.Transitions(int64(n))
 				if !batch {
 					r.States(int64(len(h)))
 				}
 				if vc != nil {
-					w.report(sig, vc)
+					w.report(class, vc)
 					continue
 				}
 				r.Traces(1)
@@ -264,14 +250,4 @@ func core64(h []Step) uint64 {
 		}
 	}
 	return hsh
-}
-
-func (w *worker) replayAsync(c Case, vc *VCase) (sig string, out *VCase) {
-	exp, unsup := modelAsync(vc.Prog, vc.History, vc.Batch)
-	if unsup != "" {
-		return "", nil
-	}
-	w.discard()
-	_, out, sig = w.runAsyncHistory(c, vc.Prog.JS(true), exp, vc.Batch)
-	return sig, out
 }
